@@ -218,18 +218,21 @@ def s_compare(draw):
 
 
 def check_sequence(case) -> Result:
-    """a chain of conversions (copy and in place) applied to one object: the SI magnitude is invariant, a copying
-    conversion never touches its receiver, an in-place one returns the receiver"""
+    """a chain of conversions (copy and in place) over a growing pool of objects derived from one quantity: every
+    object keeps the SI magnitude of the original, a copying conversion never touches its receiver nor any other
+    object, an in-place one returns the receiver and touches nothing else"""
     res = Result()
     kind, v, u = case['kind'], case['value'], case['unit']
     cls = U.cls(kind)
     units = list(U.UNITS[kind])
-    obj = cls(v, u)
-    si0 = U.si_exact(kind, v, u)
+    si0 = float(U.si_exact(kind, v, u))
+    pool = [cls(v, u)]
+    state = [(v, u)]                    # expected (value, unit) of every pool object
     n_inplace = 0
     for n, step in enumerate(case['steps']):
+        ix = step.get('obj', 0) % len(pool)
+        obj = pool[ix]
         target = units[step['unit_ix'] % len(units)]
-        before = (obj.value, obj.unit)
         r = obj.to(target, inplace=step['inplace'])
         tol = (n + 2) * CONV_ULP
         if step['inplace']:
@@ -237,24 +240,34 @@ def check_sequence(case) -> Result:
             if r is not obj:
                 res.bad(f'C05/sequence/{kind}/inplace-not-self', f'{case}: step {n} did not return the receiver')
                 break
+            state[ix] = (obj.value, obj.unit)
         else:
-            if (obj.value, obj.unit) != before:
-                res.bad(f'C05/sequence/{kind}/receiver-mutated', f'{case}: step {n} (copy) changed the receiver '
-                        f'{before} -> {(obj.value, obj.unit)}')
-                break
+            if not any(r is p for p in pool):
+                pool.append(r)
+                state.append((r.value, r.unit))
         if r.unit != target or type(r) is not cls:
             res.bad(f'C05/sequence/{kind}/label', f'{case}: step {n} -> {r!r}')
             break
-        got = float(U.si_exact(kind, r.value, r.unit))
-        if U.ulps(got, float(si0)) > tol:
-            res.bad(f'C05/sequence/{kind}/magnitude-drifts',
-                    f'{case}: after step {n} ({"in place" if step["inplace"] else "copy"} to {target}) the object is '
-                    f'{r!r} = {got!r} SI, the original magnitude is {float(si0)!r} SI')
+        # every object of the pool: unchanged unless it was the in-place receiver, and always the original magnitude
+        bad = False
+        for k, p in enumerate(pool):
+            if (p.value, p.unit) != state[k]:
+                res.bad(f'C05/sequence/{kind}/bystander-changed',
+                        f'{case}: step {n} ({"in place" if step["inplace"] else "copy"} on object {ix} to {target}) changed '
+                        f'object {k} from {state[k]} to {(p.value, p.unit)}')
+                bad = True
+                break
+            got = float(U.si_exact(kind, p.value, p.unit))
+            if U.ulps(got, si0) > tol:
+                res.bad(f'C05/sequence/{kind}/magnitude-drifts',
+                        f'{case}: after step {n} ({"in place" if step["inplace"] else "copy"} on object {ix} to {target}) '
+                        f'object {k} is {p!r} = {got!r} SI, the original magnitude is {si0!r} SI')
+                bad = True
+                break
+        if bad:
             break
-        if step.get('continue_on_copy') and not step['inplace']:
-            obj = r
     res.nontrivial = v != 0 and len(case['steps']) >= 3 and n_inplace >= 1
-    res.classes = (f'kind:{kind}', f'steps:{min(len(case["steps"]), 6)}')
+    res.classes = (f'kind:{kind}', f'steps:{min(len(case["steps"]), 6)}', f'pool:{min(len(pool), 5)}')
     return res
 
 
@@ -263,7 +276,7 @@ def s_sequence(draw):
     kind = draw(st.sampled_from(U.KINDS))
     return {'kind': kind, 'value': draw(s_value(kind)), 'unit': draw(st.sampled_from(list(U.UNITS[kind]))),
             'steps': draw(st.lists(st.fixed_dictionaries({'unit_ix': st.integers(0, 16), 'inplace': st.booleans(),
-                                                          'continue_on_copy': st.booleans()}), min_size=2, max_size=8))}
+                                                          'obj': st.integers(0, 6)}), min_size=2, max_size=8))}
 
 
 def parts(tier):
